@@ -41,7 +41,8 @@ class CombinationMatcher(mcore.Matcher):
         return all(m.supports_block_quality() for m in self._submatchers)
 
     def max_quality(self):
-        return max(m.max_quality() for m in self._submatchers
+        # A document may match every sub-matcher, and its score is the sum
+        return sum(m.max_quality() for m in self._submatchers
                    if m.is_active()) * self._boost
 
     def supports(self, astype):
@@ -244,7 +245,12 @@ class ArrayUnionMatcher(CombinationMatcher):
         return self._docnum < self._doccount
 
     def max_quality(self):
-        return max(m.max_quality() for m in self._submatchers)
+        # The scores of the current part have already been read into the
+        # array (the sub-matchers are past it); any later document can get at
+        # most the sum of what the still-active sub-matchers can contribute
+        rest = sum(m.max_quality() for m in self._submatchers
+                   if m.is_active()) * self._boost
+        return max(self.block_quality(), rest)
 
     def block_quality(self):
         return max(self._a)
